@@ -283,6 +283,11 @@ class StandardVelocityInvertiblePotential(StandardVelocityPotential, InvertibleP
         raise NotImplementedError
 
 
+# Squared norms are computed with slightly different rounding in different places (x * x vs. x ** 2); a lower bound on a
+# squared norm is therefore enlarged by a few units in the last place.
+_ROUNDING_GUARD = 1.0 + 2.0 ** -50
+
+
 # noinspection PyMethodOverriding
 class MexicanHatPotential(StandardVelocityInvertiblePotential, metaclass=ABCMeta):
     """
@@ -408,8 +413,11 @@ class MexicanHatPotential(StandardVelocityInvertiblePotential, metaclass=ABCMeta
             The displacement of the active unit i where the cumulative event rate equals the sampled potential change.
         """
         norm_of_new_separation = self._invert_potential_outside_minimum(current_potential + potential_change)
+        # The active unit travels uphill away from the target unit: the new separation cannot be shorter than the current
+        # one (rounding for potential changes below the resolution of the current potential).
         return vectors.displacement_until_new_norm_sq_component_negative(
-            separation, norm_of_new_separation * norm_of_new_separation, direction)
+            separation, max(norm_of_new_separation * norm_of_new_separation,
+                            vectors.norm_sq(separation) * _ROUNDING_GUARD), direction)
 
     def _displacement_behind_outside_sphere(self, direction: int, potential_change: float,
                                             separation: MutableSequence[float]) -> float:
@@ -522,8 +530,11 @@ class MexicanHatPotential(StandardVelocityInvertiblePotential, metaclass=ABCMeta
         if potential_change < potential_difference:
             norm_of_new_separation = self._invert_potential_inside_minimum(
                 current_potential + potential_change)
+            # The active unit cannot climb the hill: the new separation cannot be shorter than the one at the maximum
+            # (rounding for potential changes within the resolution of the potential difference).
             displacement = vectors.displacement_until_new_norm_sq_component_positive(
-                separation, norm_of_new_separation * norm_of_new_separation, direction)
+                separation, max(norm_of_new_separation * norm_of_new_separation,
+                                vectors.norm_sq(separation_at_maximum_inside) * _ROUNDING_GUARD), direction)
         else:
             displacement = separation[direction]
             separation[direction] = 0.0
